@@ -244,6 +244,9 @@ func c17Run(raw json.RawMessage) harn.Result {
 		_ = vm.RegCustomDice(`E(\d+)`, func(ctx *ds.Context, groups []string, payload any) (*ds.VMValue, string, error) {
 			log = append(log, call{append([]string{}, groups...), payload})
 			n, _ := strconv.Atoi(groups[1])
+			for i := range groups {
+				groups[i] = "overwritten by the handler" // the argument is the handler's own: the next evaluation must see the matched text again
+			}
 			v := ds.NewIntVal(ds.IntType(n))
 			returned = append(returned, v)
 			return v, "", nil
@@ -283,6 +286,9 @@ func c17Run(raw json.RawMessage) harn.Result {
 		}, func(ctx *ds.Context, groups []string, payload any) (*ds.VMValue, string, error) {
 			log = append(log, call{append([]string{}, groups...), payload})
 			p, _ := payload.(*pl)
+			for i := range groups {
+				groups[i] = "overwritten by the handler"
+			}
 			if p == nil {
 				return nil, "", fmt.Errorf("payload lost")
 			}
